@@ -45,7 +45,7 @@ def run_stream(spec, stream, fail_at, nid, mode, val):
             before = h.toJson()
             g0 = C.digest(h, strict=False)
             try:
-                h.fill(r, w)
+                h.fill(A.fresh(r), w)
             except Exception as e:
                 nraised += 1
                 after = h.toJson()
@@ -63,7 +63,7 @@ def run_stream(spec, stream, fail_at, nid, mode, val):
             survivors.append((r, w))  # the faulty quantity was never evaluated for this record
         else:
             try:
-                h.fill(r, w)
+                h.fill(A.fresh(r), w)
             except Exception as e:
                 out.append(core.v_exc(PROP, "fault", "healthy record raised", e, args, {"step": i}))
                 return out, nraised
